@@ -115,12 +115,12 @@ type TunClient struct {
 	AuthHdr   string // Authorization header value ("" = none)
 	// AuthFn, when set, yields the Authorization value per connection (Kerberos tokens must
 	// not be replayed, so each connection needs a fresh one)
-	AuthFn func(role string) string
-	ExtraHdr  string
+	AuthFn   func(role string) string
+	ExtraHdr string
 	// Opaque: the connections carry bytes that legitimately differ between executions of the
 	// same schedule (a session cookie): journaled without content
 	Opaque bool
-	GWAddr    string
+	GWAddr string
 
 	WS, Out, In *sim.End
 	head        map[string]*codec.HTTPHead
